@@ -882,7 +882,7 @@ pub fn large_units(n: usize) -> Vec<(usize, usize, usize)> {
     starts.retain(|s| *s < n.max(1));
     starts.sort_unstable();
     starts.dedup();
-    let mut lens = vec![0, 1, 2, 3, n / 2, n.saturating_sub(2), n.saturating_sub(1), n, 31, 32, 33, 63, 64, 65];
+    let mut lens = vec![0, 1, 2, 3, 4, 5, 8, 15, 16, 17, n / 64, n / 64 + 1, n / 8, n / 2, n.saturating_sub(2), n.saturating_sub(1), n, 31, 32, 33, 63, 64, 65];
     lens.retain(|l| *l <= n);
     lens.sort_unstable();
     lens.dedup();
